@@ -20,20 +20,20 @@ import struct
 
 from vmc import authfix as A
 from vmc import core, enum
-from vmc import fixtures as F
-from vmc.refs import authref as R
 
 PID = "C15"
 META = {
     "level": "exploration",
     "technique": "bounded-exhaustive enumeration of (authentication stage x connection-layer message x payload "
                  "shape), each executed on two live Transports under the cooperative scheduler (event mode)",
-    "text": "11 pre-authentication stages (after NEWKEYS, after SERVICE_ACCEPT, after a failed / partial attempt, "
-            "after PK_OK, inside keyboard-interactive, inside gssapi-with-mic at 3 points [stub context], in one "
-            "burst with a following successful request, after a refused open followed by a successful login) x "
-            "every message type 80..100 x payload shapes {well-formed with channel 0 / another channel number, "
-            "empty, 64 filler bytes; every CHANNEL_OPEN kind; GLOBAL_REQUEST kinds x want_reply; CHANNEL_REQUEST "
-            "kinds}; thorough adds every proper prefix of every well-formed payload. An authenticated control "
+    "text": "9 pre-authentication stages (after NEWKEYS without service request, after SERVICE_ACCEPT, after a "
+            "failed / partial attempt, after PK_OK, inside keyboard-interactive, inside gssapi-with-mic at 3 points "
+            "[stub context]) x every message type 80..100 x payload shapes {well-formed with channel 0 / another "
+            "channel number, empty, 64 filler bytes; every CHANNEL_OPEN kind; GLOBAL_REQUEST kinds x want_reply; "
+            "9 CHANNEL_REQUEST kinds}, in 4 modes: alone; in one burst with a following successful login; after a "
+            "refused open (channel numbers 0 and 7); after a refused open followed by a successful login "
+            "(traffic for never-allocated channel numbers). Thorough adds every proper prefix of every "
+            "well-formed payload and the burst / after-refused-open modes at every stage. An authenticated control "
             "stage shows the same packets do reach the application once authenticated.",
     "note": "server side is unmodified paramiko (in two gssapi stages the handlers of the temporary GSS auth "
             "handler are bound by the harness, otherwise those stages are unreachable); client packets are "
